@@ -5,6 +5,7 @@ import (
 	"time"
 
 	command "github.com/rqlite/rqlite/v10/command/proto"
+	"github.com/rqlite/rqlite/v10/internal/vhook"
 )
 
 // ColumnsNameProvider provides column names for a given table.
@@ -50,6 +51,7 @@ func (s *CDCStreamer) Reset(k uint64) {
 		Events: make([]*command.CDCEvent, 0),
 		Index:  k,
 	}
+	vhook.Trace(s.out, "cdcs.reset", "k", k)
 }
 
 // Close closes the CDCStreamer. It closes the out channel.
@@ -90,10 +92,12 @@ func (s *CDCStreamer) CommitHook() bool {
 	}
 
 	s.pending.CommitTimestamp = time.Now().UnixMilli()
+	vhook.Trace(s.out, "cdcs.commit", "idx", s.pending.Index, "nev", len(s.pending.Events))
 	select {
 	case s.out <- s.pending:
 	default:
 		stats.Add(cdcDroppedEvents, 1)
+		vhook.Trace(s.out, "cdcs.dropped", "idx", s.pending.Index)
 	}
 	s.pending = &command.CDCIndexedEventGroup{
 		Events: make([]*command.CDCEvent, 0),
